@@ -181,13 +181,16 @@ def who_may_write(check: Check, repo: Repo) -> None:
 
 def run(tier: str) -> Check:
     check = Check("C09", tier, EXPLANATION)
-    check.rules = ["COVER", "PAIRING", "CONSERVATION", "REP-INVARIANT", "WHO-MAY-WRITE"]
+    check.rules = ["COVER", "PAIRING", "CONSERVATION", "REP-INVARIANT", "WHO-MAY-WRITE", "STATE-FIELD"]
     check.assumptions = [
         "REP-INVARIANT is decided on the finite order-and-adjacency abstraction of the representation (gaps of 0, 1, 2 between consecutive boundaries, three nested snapshots, opaque distinct elements); the argument that this abstraction is complete for slice programs with unit coefficients is given in sa/stackmodel.py and DESIGN.md, it is not machine-checked",
         "list.append/extend/pop/del behave as documented",
     ]
     repo = Repo()
     component_coverage(check, repo)
+    from .c05 import state_fields
+
+    state_fields(check, repo)
     pairing(check, repo)
     conservation(check, repo)
     rep_invariant(check, repo, tier)
